@@ -469,12 +469,14 @@ GenS(c) ==
                             f == PickW(<< <<4, "lit">>, <<IF c.fcall THEN 2 ELSE 0, "call">>, <<2, "print">>, <<1, "method">>,
                                           <<IF cl0 # {} THEN 2 ELSE 0, "clo">>, <<IF c.maps # {} THEN 1 ELSE 0, "mdel">>,
                                           <<IF c.ptrs # {} THEN 3 ELSE 0, "relp">>, <<IF c.qs # {} THEN 3 ELSE 0, "relq">>,
-                                          <<IF c.sls # {} THEN 3 ELSE 0, "rels">>, <<IF c.maps # {} THEN 3 ELSE 0, "relm">> >>) IN
+                                          <<IF c.sls # {} THEN 3 ELSE 0, "rels">>, <<IF c.maps # {} THEN 3 ELSE 0, "relm">>,
+                                          <<1, "nilfn">> >>) IN
                         S(CASE f = "lit" -> [k |-> "defer", form |-> "lit", body |-> GenDeferBody(c), f |-> "", e |-> Lit(0)]
                             [] f = "method" -> (IF c.qs # {} /\ Pick(1..3) = 1
                                                 THEN [k |-> "defer", form |-> "method", via |-> "ptr", s |-> Pick(c.qs), body |-> <<>>, f |-> "", e |-> GenE(1, c)]
                                                 ELSE [k |-> "defer", form |-> "method", via |-> "val", s |-> Pick(c.sts), body |-> <<>>, f |-> "", e |-> GenE(1, c)])
                             [] f = "clo"  -> [k |-> "defer", form |-> "clo", s |-> Pick(cl0), body |-> <<>>, f |-> "", e |-> Lit(0)]
+                            [] f = "nilfn" -> [k |-> "defer", form |-> "nilfn", s |-> "", body |-> <<>>, f |-> "", e |-> Lit(0)]
                             [] f = "mdel" -> [k |-> "defer", form |-> "mdel", s |-> Pick(c.maps), body |-> <<>>, f |-> "", e |-> GenKey(c)]
                             [] f \in {"relp", "relq", "rels", "relm"} ->
                                   [k |-> "defer", form |-> f, body |-> <<>>, f |-> "", e |-> Lit(0),
@@ -582,6 +584,8 @@ MenuF ==
       Blk(<< [k |-> "mkmap", s |-> "m1", form |-> "lit", ks |-> <<0>>, es |-> <<Lit(7)>>], DRef("relm", "m1"),
              [k |-> "mreasg", form |-> "make", s |-> "m1", from |-> ""] >>) }
     \cup { [k |-> "fault", kind |-> kd] : kd \in FamFaults }
+    \* the deferred call of a nil function value: registered like any other, it faults when the function ends
+    \cup { DRef("nilfn", "") }
     \* a function literal held in a variable and deferred THROUGH the variable: recover() in its body stops the
     \* panic; the same literal merely called by a deferred literal does not
     \cup (IF ~ClobForms THEN {} ELSE
